@@ -24,7 +24,7 @@ def evaluate(ctx, vh, args):
         raise Broken("C09 harness run failed", out[-3000:])
     rep = json.load(open(os.path.join(out_dir, "c09_report.json")))
     cases = json.load(open(os.path.join(out_dir, "c09_cases.json")))
-    mm, sv, ng, sm, tm = [], [], 0, [], []
+    mm, sv, ng, sm, tm, cv = [], [], 0, [], [], []
     with concurrent.futures.ThreadPoolExecutor(max_workers=8) as ex:
         results = list(ex.map(lambda f: common.coqc_file(f, cwd=out_dir), rep["files"]))
     for ok, cout in results:
@@ -37,7 +37,9 @@ def evaluate(ctx, vh, args):
         ng += common.parse_print(cout, "NG")[0]
         sm += common.parse_print(cout, "SM")
         tm += common.parse_print(cout, "TM")
-    rep["strip_mismatches"], rep["tlog_mismatches"] = sm, tm
+        d = common.parse_print(cout, "CV")
+        cv += [(d[i], d[i + 1], d[i + 2]) for i in range(0, len(d), 3)]
+    rep["strip_mismatches"], rep["tlog_mismatches"], rep["content_violations"] = sm, tm, cv
     return rep, cases, mm, sv, ng
 
 
@@ -68,6 +70,19 @@ def judge(ctx, rep, cases, mm, sv):
                            "(StoreSpec.v under the rotation setting rot); getprev n = GetPrevious(n) = versioned read of (commits so far - n)",
                       disagreeing_cases_in_this_run=len(unknown), family=cases[ci].get("Family"),
                       cls=cl, how="./check replay <this file>"))
+    # content monitor: an unmetered read (versioned read / read without a gas store) answers differently from the model
+    # although every earlier answer — including which writes were refused — was the model's: the stored content is not
+    # what the writes that returned success determine (theorems C09_refused_set_no_effect / _not_committed)
+    reported = {best[k][0] for k in best}
+    cvs = sorted([x for x in (rep.get("content_violations") or []) if x[2] == 1 and x[0] not in reported],
+                 key=lambda x: (len(cases[x[0]]["Ops"]), x[0]))
+    for (ci, step, kd) in cvs[:2]:
+        found_input = True
+        ctx.violation("content_%d" % ci, dict(case_payload(cases[ci], step), kind="stored-content-is-not-what-the-successful-writes-determine",
+                      failing_operation=cases[ci]["Ops"][step], store_answered=cases[ci]["Obs"][step],
+                      what="every answer before first_bad_step (incl. which writes were refused with an error) is the model's; the unmetered read "
+                           "at first_bad_step returns content the model proves cannot be there (a refused write was persisted, or an accepted one lost)",
+                      content_violations_in_this_run=len(cvs), family=cases[ci].get("Family"), how="./check replay <this file>"))
     # shortest failing sequences first: the replay should be as small as the run found
     twin = sorted(rep.get("twin_failures") or [], key=lambda tf: (len(tf["ops"]), tf["case"]))
     for tf in twin[:3]:
@@ -121,7 +136,9 @@ def run(ctx):
                 "session touching none/one/two of them, set or delete, discarded or replaced = 666 schedules); seeded block-shaped "
                 "histories (per block 3..6 keys not yet in the tree plus old ones, 2..5 sessions writing random sub-permutations, "
                 "50% committed / 32% discarded / 18% left open, reads interleaved, 2..8 blocks, no gas / huge limit, reopen / fresh "
-                "between blocks); the version sweep (9 rotation settings incl. zero, recent=1, recent=3 and the node default 10/100/10 "
+                "between blocks); the gas sweep (finite block gas limit reached exactly / overshot after 0..3 Sets, then refused block-level "
+                "Sets of new and existing keys, Deletes, session writes, Write; block commit; all versions read; reopen; 2 rotation "
+                "settings x with / without an earlier block); the version sweep (9 rotation settings incl. zero, recent=1, recent=3 and the node default 10/100/10 "
                 "x 0..4 commits, reopen, 0..3 commits x written / empty tree = 360 schedules, EVERY version 0..latest+1 read through "
                 "GetVersioned and GetPrevious before the reopen, after it and after the later commits); seeded version histories "
                 "(3..17 small blocks under the 9 rotation settings, all versions read back completely before and after every reopen "
@@ -135,6 +152,7 @@ def run(ctx):
                 "the order of the tree calls); OrderSensitiveGe3 = ... and the commit adds >= 3 leaves (the tree shape can differ)",
         "tree_twin_runs": rep["tree_twin_runs"], "tree_twin_commits_compared": rep["tree_twin_commits_compared"],
         "tree_twin_failures": len(rep.get("tree_twin_failures") or []),
+        "content_violations": len([x for x in (rep.get("content_violations") or []) if x[2] == 1]),
         "strip_mismatches": len(rep.get("strip_mismatches") or []), "tlog_mismatches": len(rep.get("tlog_mismatches") or []),
         "traces_validated_against_impl": rep["cases"], "steps": rep["steps"],
         "op_histogram": rep["op_histogram"], "obs_histogram": rep["obs_histogram"],
